@@ -61,7 +61,7 @@ def resolve(chains: Iterable[str]) -> Dict[str, dict]:
         env = dict(os.environ)
         env.pop("PYTHONPATH", None)
         p = subprocess.run([VENV_PY, "-c", _HELPER], input=json.dumps(want), capture_output=True, text=True,
-                           timeout=300, env=env, cwd="/")
+                           timeout=1500, env=env, cwd="/")
         if p.returncode != 0:
             raise RuntimeError(f"environment helper failed: {p.stderr[-400:]}")
         _cache.update(json.loads(p.stdout.strip().splitlines()[-1]))
